@@ -60,6 +60,7 @@ def write_kconfig(path, roles=ROLES):
         for r in roles:
             fh.write(f'SB_CONFIG_SUIT_MPI_{kconfig_name(r)}_VENDOR_NAME="{CFG_VENDOR}"\n')
             fh.write(f'SB_CONFIG_SUIT_MPI_{kconfig_name(r)}_CLASS_NAME="svmc_{r.lower()}"\n')
+            fh.write(f'# SB_CONFIG_SUIT_MPI_{kconfig_name(r)}_CLASS_NAME="commented_out_{r.lower()}"\n')
 
 
 SWAP = {"APP_LOCAL_1": "RAD_LOCAL_1", "RAD_LOCAL_1": "APP_LOCAL_1", "APP_ROOT": "APP_LOCAL_2", "APP_RECOVERY": "RAD_RECOVERY",
